@@ -227,6 +227,16 @@ def _comb_skip(F):
 
 
 def collect_err_guards(F, cg):
+    import panics as _pn
+    prev = _pn.PHI
+    _pn.PHI = True          # the same normalised descriptions as the skeleton (payload of unwrap / unwrap_err, phi of a few definitions, numeric casts)
+    try:
+        return _collect_err_guards(F, cg)
+    finally:
+        _pn.PHI = prev
+
+
+def _collect_err_guards(F, cg):
     res = {}
     for name in cg.names():
         b = F.bodies[name]
